@@ -316,7 +316,10 @@ func runCrashCase(p eng.Profile, c crashCase, tornAll bool, res *crashOut) {
 					continue
 				}
 				res.TornOffsets++
-				checkImage(live, dst, c.ID, "torn", c.Torn, res)
+				// one call may journal several frames where the specification has one command (a delete and
+				// the GUNLINK records of its cascade): a torn LAST frame then leaves the call's first frames
+				// complete, and the replay redoes the rest -- any flushed-prefix outcome is admissible
+				checkImage(live, dst, c.ID, "torn", append(append([]map[string]any{}, c.Torn...), c.Between...), res)
 			}
 		}
 	}
